@@ -43,7 +43,8 @@ def build(kbs, worlds):
         kd, ops, maps, nv, p, ovars = o[:6]
         w = world_of(worlds[i])
         if kd == 0:
-            objs.append(Predicate(f"p{i}", arity=nv, world=w))
+            al = float(sx.q(p[0]))
+            objs.append(Predicate(f"p{i}", arity=nv, world=w, alpha=al) if al != 1.0 else Predicate(f"p{i}", arity=nv, world=w))
             continue
         args = []
         for j, vs in zip(ops, ovars):
@@ -52,7 +53,8 @@ def build(kbs, worlds):
             else:
                 args.append(objs[j])
         if kd == 1:
-            objs.append(Not(args[0], world=w))
+            al = float(sx.q(p[0]))
+            objs.append(Not(args[0], world=w, alpha=al) if al != 1.0 else Not(args[0], world=w))
         else:
             objs.append(KCLS[kd](*args, world=w, activation=activation(p)))
     return objs
